@@ -180,3 +180,125 @@ func ghostTimerPrefix(kg uint16) []byte { return []byte{byte(kg >> 8), byte(kg),
 //@   property C09
 //@   nosafety
 //@   atcall NeedsTable: o.keyGroupRange.Overlaps(tableKeyGroupRange)
+
+// ---- keyed state (C03). DKV key of a state entry:
+//   <key group:2 BE><0x00><len(subject key):4 BE><subject key><len(namespace):1><namespace><entry key>
+// ghostKG: the key group of a subject key (KeySpace.KeyGroup is decided under C05).
+func ghostKG(s *KeyedStateStore, k []byte) uint16 { return uint16(s.keySpace.KeyGroup(k)) }
+
+// Numbers are stated through their big-endian digits: keyL(r) is the number at bytes 3..6.
+//@ define keyL(c) := c[3]*16777216 + c[4]*65536 + c[5]*256 + c[6]
+//@ define subjHead(r, kg, k) := len(r) >= 7+len(k) && r[0]*256 + r[1] == kg && r[2] == 0 && keyL(r) == len(k) &&
+//@        forall(0, len(k), func(ii_ int) bool { return r[7+ii_] == k[ii_] })
+//@ define dbKeyOf(r, kg, k, ns, d) := len(r) == 8+len(k)+len(ns)+len(d) && subjHead(r, kg, k) && r[7+len(k)] == len(ns)%256 &&
+//@        forall(0, len(ns), func(ii_ int) bool { return r[8+len(k)+ii_] == ns[ii_] }) &&
+//@        forall(0, len(d), func(ii_ int) bool { return r[8+len(k)+len(ns)+ii_] == d[ii_] })
+
+//@ func KeyedStateStore.encodeSubjectKey
+//@   property C03
+//@   pure
+//@   reads s.keySpace, s.keySpace.keyGroupCount
+//@   requires s.keySpace != nil && partitioning.ghostValidKeySpace(s.keySpace) && len(subjectKey) < 4294967296
+//@   modifies nothing
+//@   ensures len(result) == 7+len(subjectKey) && subjHead(result, ghostKG(s, subjectKey), subjectKey)
+
+//@ func KeyedStateStore.encodeDBKey
+//@   property C03
+//@   pure
+//@   reads s.keySpace, s.keySpace.keyGroupCount
+//@   requires s.keySpace != nil && partitioning.ghostValidKeySpace(s.keySpace) && len(subjectKey) < 4294967296
+//@   modifies nothing
+//@   ensures dbKeyOf(result, ghostKG(s, subjectKey), subjectKey, []byte(namespace), data)
+
+// decodeKey reads the namespace and the entry key back out of a DKV key: the subject key
+// length at bytes 3..6 (big endian), the namespace length right after the subject key.
+//@ func KeyedStateStore.decodeKey
+//@   property C03
+//@   pure
+//@   requires len(compositeKey) >= 8+keyL(compositeKey) && len(compositeKey) >= 8+keyL(compositeKey)+compositeKey[7+keyL(compositeKey)]
+//@   modifies nothing
+//@   ensures len(result0) == compositeKey[7+keyL(compositeKey)] && forall(0, len(result0), func(i int) bool { return result0[i] == compositeKey[8+keyL(compositeKey)+i] })
+//@   ensures len(result1) == len(compositeKey)-8-keyL(compositeKey)-len(result0) && forall(0, len(result1), func(i int) bool { return result1[i] == compositeKey[8+keyL(compositeKey)+len(result0)+i] })
+
+// Round trip: on a key built by encodeDBKey (namespace up to 255 bytes) decodeKey's
+// precondition holds and what it returns is exactly the namespace and the entry key.
+//@ lemma stateKeyRoundTrip
+//@   property C03
+//@   forall c []byte, k []byte, ns []byte, d []byte, kg uint16
+//@   requires len(k) < 4294967296 && len(ns) < 256 && dbKeyOf(c, kg, k, ns, d)
+//@   ensures keyL(c) == len(k) && c[7+keyL(c)] == len(ns)
+//@   ensures len(c) >= 8+keyL(c)+c[7+keyL(c)] && len(c)-8-keyL(c)-c[7+keyL(c)] == len(d)
+//@   ensures forall(0, len(ns), func(i int) bool { return c[8+keyL(c)+i] == ns[i] }) && forall(0, len(d), func(i int) bool { return c[8+keyL(c)+c[7+keyL(c)]+i] == d[i] })
+
+// Prefix-freeness: the scan prefix of subject key k1 is a prefix of a state entry's DKV key
+// only if that entry belongs to k1 - also when one subject key is a prefix of another.
+//@ lemma stateKeysPrefixFree
+//@   property C03
+//@   forall e []byte, p []byte, k1 []byte, k2 []byte, ns []byte, d []byte, kg1 uint16, kg2 uint16
+//@   requires len(k1) < 4294967296 && len(k2) < 4294967296
+//@   requires len(p) == 7+len(k1) && subjHead(p, kg1, k1) && dbKeyOf(e, kg2, k2, ns, d)
+//@   requires len(e) >= len(p) && forall(0, len(p), func(i int) bool { return e[i] == p[i] })
+//@   ensures len(k1) == len(k2) && forall(0, len(k1), func(i int) bool { return k1[i] == k2[i] })
+
+// Injectivity: a DKV key determines subject key, namespace and entry key (namespaces up to 255 bytes).
+//@ lemma stateKeysInjective
+//@   property C03
+//@   forall e []byte, k1 []byte, k2 []byte, ns1 []byte, ns2 []byte, d1 []byte, d2 []byte, kg1 uint16, kg2 uint16
+//@   requires len(k1) < 4294967296 && len(k2) < 4294967296 && len(ns1) < 256 && len(ns2) < 256
+//@   requires dbKeyOf(e, kg1, k1, ns1, d1) && dbKeyOf(e, kg2, k2, ns2, d2)
+//@   ensures len(k1) == len(k2) && forall(0, len(k1), func(i int) bool { return k1[i] == k2[i] })
+//@   ensures len(ns1) == len(ns2) && forall(0, len(ns1), func(i int) bool { return ns1[i] == ns2[i] })
+//@   ensures len(d1) == len(d2) && forall(0, len(d1), func(i int) bool { return d1[i] == d2[i] })
+
+// ghostNS / ghostEntryKey: what decodeKey reads out of a DKV key.
+func ghostNS(s *KeyedStateStore, key []byte) string { ns, _ := s.decodeKey(key); return string(ns) }
+func ghostEntryKey(s *KeyedStateStore, key []byte) []byte { _, d := s.decodeKey(key); return d }
+
+// GetState hands the handler exactly the live state entries stored under the subject key's
+// prefix - one output entry per stored entry, nothing else -, grouped into runs of equal
+// namespace in scan order. (Values are checked in the loop invariant; the abstract DB is a key set.)
+// The two directions are proved in separate clause groups (A: every stored entry is supplied,
+// B: nothing else is): together their existentials would feed each other's triggers.
+//@ define wfKey(c) := len(c) >= 8+keyL(c) && len(c) >= 8+keyL(c)+c[7+keyL(c)]
+//@ define holdsEntry(s, ret, g, i, c) := ret[g].Namespace == ghostNS(s, c) && same(ret[g].Entries[i].Key, ghostEntryKey(s, c))
+//@ define groupsOK(ret) := forall(0, len(ret), func(gg_ int) bool { return ret[gg_] != nil && len(ret[gg_].Entries) >= 1 &&
+//@          forall(0, len(ret[gg_].Entries), func(ii_ int) bool { return ret[gg_].Entries[ii_] != nil }) &&
+//@          forall(0, gg_, func(hh_ int) bool { return ret[hh_] != ret[gg_] }) }) &&
+//@        forall(0, len(ret)-1, func(gg_ int) bool { return ret[gg_].Namespace != ret[gg_+1].Namespace })
+//@ func KeyedStateStore.GetState
+//@   property C03
+//@   requires s.db != nil && s.keySpace != nil && partitioning.ghostValidKeySpace(s.keySpace) && len(key) < 4294967296
+//@   requires forall(func(c []byte) bool { return has(s.db.live, string(c)) && hasprefix(c, s.encodeSubjectKey(key)) ==> wfKey(c) })
+//@   ensures result1 == nil ==> groupsOK(result0)
+//@   ensures@A result1 == nil ==> forall(func(k string) bool { return has(s.db.live, k) && hasprefix(k, s.encodeSubjectKey(key)) ==>
+//@           exists(func(c []byte) bool { return string(c) == k && exists(0, len(result0), func(g int) bool { return exists(0, len(result0[g].Entries), func(i int) bool { return holdsEntry(s, result0, g, i, c) }) }) }) })
+//@   ensures@B result1 == nil ==> forall(0, len(result0), func(g int) bool { return forall(0, len(result0[g].Entries), func(i int) bool {
+//@           return exists(func(c []byte) bool { return has(s.db.live, string(c)) && hasprefix(c, s.encodeSubjectKey(key)) && holdsEntry(s, result0, g, i, c) }) }) })
+//@   loop 0:
+//@     invariant groupsOK(ret) && (currentItem == nil) == (len(ret) == 0) && (len(ret) > 0 ==> currentItem == ret[len(ret)-1])
+//@     invariant@A forall(0, idx_, func(j int) bool { return exists(0, len(ret), len(ret)-1, func(g int) bool { return exists(0, len(ret[g].Entries), len(ret[g].Entries)-1, func(i int) bool {
+//@               return holdsEntry(s, ret, g, i, seqat(coll_, j).Key()) && same(ret[g].Entries[i].Value, seqat(coll_, j).Value()) }) }) })
+//@     invariant@B forall(0, len(ret), func(g int) bool { return forall(0, len(ret[g].Entries), func(i int) bool { return exists(0, idx_, func(j int) bool {
+//@               return holdsEntry(s, ret, g, i, seqat(coll_, j).Key()) }) }) })
+
+// ApplyMutations writes every mutation the handler returned, in the order returned, under the
+// DKV key of (subject key, the mutation's namespace, the mutation's entry key): puts as puts with
+// their value, deletes as deletes. The namespace must fit its one length byte - otherwise the
+// key decodes to a different namespace and entry key (stateKeysInjective needs len < 256).
+//@ define dbReady(db) := db != nil && db.wal != nil && db.mtables != nil && db.wal.activeBuffer != nil && db.wal.latestSeqNum <= db.seqNum && !db.wal.sealedFlag
+//@ func KeyedStateStore.ApplyMutations
+//@   property C03
+//@   requires dbReady(s.db) && s.keySpace != nil && partitioning.ghostValidKeySpace(s.keySpace) && len(subjectKey) < 4294967296
+//@   requires forall(0, len(mutations), func(n int) bool { return mutations[n] != nil && forall(0, len(mutations[n].Mutations), func(m int) bool {
+//@            return mutations[n].Mutations[m] != nil && (mutations[n].Mutations[m].GetPut() != nil || mutations[n].Mutations[m].GetDelete() != nil) }) })
+//@   modifies dkv.DB.seqNum, dkv.DB.live, wal.Writer.*, wal.bufferSegment.*, memtable.List.*, memtable.MemTable.*, ziptree.ZipTree.*, ziptree.Node.*
+//@   atcall Put: len(namespace.Namespace) < 256
+//@   atcall Put: mutation.GetPut() != nil && same(arg0, s.encodeDBKey(subjectKey, namespace.Namespace, mutation.GetPut().Key)) && same(arg1, mutation.GetPut().Value)
+//@   atcall Delete: len(namespace.Namespace) < 256
+//@   atcall Delete: mutation.GetDelete() != nil && same(arg0, s.encodeDBKey(subjectKey, namespace.Namespace, mutation.GetDelete().Key))
+//@   loop 0:
+//@     invariant forall(0, idx_, func(n int) bool { return len(mutations[n].Namespace) < 256 })
+//@   loop 1:
+//@     invariant dbReady(s.db)
+//@   loop 2:
+//@     invariant dbReady(s.db)
